@@ -448,7 +448,26 @@ def header_rule(ctx):
                 if any(a[0] == 'agg' and a[1].endswith('RangeFrom') for a in ro.atoms):
                     rest = sorted(x for x in ro.consts() if isinstance(x, int))
             rest_from_input = o.params() == {1}
-    ctx.ob('HEADER', 'slice', ok and rest == [10], short_loc(sb.span), 'header = slice.get(0..10) (%s), datum = slice[%s..]' % (n_hdr, rest))
+    form = 'header = slice.get(0..10) (%s), datum = slice[%s..]' % (n_hdr, rest)
+    okh = ok and rest == [10]
+    if not okh:
+        # the same split written `if slice.len() < 10 { return Err } ; let (header, datum) = slice.split_at(10)`
+        sp = [(bb, t) for bb, t in sb.calls() if call_matches(t, ['slice::<impl [T]>::split_at'])]
+        if len(sp) == 1:
+            bb, t = sp[0]
+            at = origin(sb, t['args'][1])
+            guarded = False
+            for g in cmp_guards(sb, bb):
+                if g['op'] in ('Ge', 'Gt') and 'len' in g['l'].flags and g['l'].params() == {1} and g['r'].consts() == ({10} if g['op'] == 'Ge' else {9}):
+                    guarded = all(all_paths_err(sb, s_) for s_ in g['other'])
+            datum_ok = False
+            for b2, t2 in sb.calls():
+                if cname(t2).endswith('from_datum_slice'):
+                    o2 = origin(sb, t2['args'][0])
+                    datum_ok = any(c is t for c in o2.calls) and not o2.has_arith()
+            okh = at.consts() == {10} and not at.params() and origin(sb, t['args'][0]).params() == {1} and guarded and datum_ok
+            form = 'header, datum = slice.split_at(10) under len >= 10 (else Err): %s; datum handed to from_datum_slice: %s' % (guarded, datum_ok)
+    ctx.ob('HEADER', 'slice', okh, short_loc(sb.span), form)
     re = [(bb, t) for bb, t in rb.calls() if (t.get('callee') or '') == 'std::io::Read::read_exact']
     ok = len(re) == 1
     size = None
